@@ -73,7 +73,7 @@ theorem entry_smul (c : R) (M : List (List R)) (i j : Nat) :
 theorem entry_diag (l : List R) (i j : Nat) (hi : i < l.length) (hj : j < l.length) :
     entry (diag l) i j = some (if i = j then l[i] else 0) := by
   unfold entry diag
-  simp [List.getElem?_zipIdx, hi, hj]
+  simp [hi, hj]
 
 /-! ### sums -/
 
